@@ -45,13 +45,15 @@ def extract(g, X):
         b = X.fn_body(st, "next_lexeme")
         m = re.search(r"for\s+\w+\s+in\s+0\s*\.\.\s*(" + B + r")\s*\{", b)
         loop = X.item_body(b[m.start():], r"\{", "octal loop")
-        # the digit test, in either polarity: `if (LO..=HI).contains(&d) { eat } else { break }` / `if !(…) { break }`
-        c = re.search(r"\bif\s+([^{;]+?)\s*\{", loop)       # the first test in the loop is the digit test
-        cond = c.group(1)
-        digits = X.byte_set(cond, None, st)
-        blk = X.item_body(loop[c.start():], r"\{", "digit test block")
-        if re.match(r"\s*break\b", blk):
-            digits = X.ALL_BYTES - digits
+        # the loop body is RUN for every value of the byte it peeks: the digits are the bytes on which it does not leave the
+        # loop (polarity of the test, if/else vs early `break`, `matches!` / range `contains` / is_ascii_* are all the same)
+        c = re.search(r"let\s+(\w+)\s*=\s*self\.peek_byte\(\)\?\s*;", loop).group(1)
+        t = X.tabulate_local(loop, c, st, scopes=[b])
+        digits = set(v for v, o in t.items() if o.how == "value")
+        if any(o.how not in ("value", "break") for o in t.values()) or not digits:
+            raise ValueError("octal loop leaves otherwise than by break")
+        if any(not any(re.fullmatch(r"self\.next_byte\(\)\?;?", e) for e in t[v].effects) for v in digits):
+            raise ValueError("a digit is not consumed")
         lo, hi = min(digits), max(digits)
         if digits != set(range(lo, hi + 1)):
             raise ValueError("octal digits are not a range")
@@ -96,18 +98,39 @@ def extract(g, X):
 
     def stream_kw():
         b = X.fn_body(lx, "next_stream")
-        w = re.search(r"let\s*\(\s*_\s*,\s*(\w+)\s*\)\s*=\s*self\.next_word\(\)\?", b)
+        w = re.search(r"let\s*\(\s*_\s*,\s*(\w+)\s*\)\s*=\s*self\.next_word\(\)\?\s*;", b)
         if not w:
             raise ValueError("keyword is no longer located with next_word")
         p = w.group(1)
-        f = re.search(r"let\s+&(\w+)\s*=\s*self\.buf\.get\(\s*" + p + r"\s*\)", b)
-        s2 = re.search(r"let\s+&(\w+)\s*=\s*self\.buf\.get\(\s*" + p + r"\s*\+\s*1\s*\)", b)
+        f = re.search(r"let\s+&?(\w+)\s*=\s*\*?self\.buf\.get\(\s*" + p + r"\s*\)", b)
+        s2 = re.search(r"let\s+&?(\w+)\s*=\s*\*?self\.buf\.get\(\s*" + p + r"\s*\+\s*1\s*\)", b)
         b0, b1 = f.group(1), s2.group(1)
-        lf = re.search(r"if\s+" + b0 + r"\s*==\s*(" + B + r")\s*\{\s*self\.pos\s*=\s*" + p + r"\s*\+\s*(\d+)", b)
-        cr = re.search(r"else\s+if\s+" + b0 + r"\s*==\s*(" + B + r")", b)
-        crlf = re.search(r"if\s+" + b1 + r"\s*!=\s*(" + B + r")", b)
-        p8 = re.findall(r"self\.pos\s*=\s*" + p + r"\s*\+\s*(\d+)", b)
-        return str(iv(lf.group(1))), lf.group(2), str(iv(cr.group(1))), str(iv(crlf.group(1))), p8[-1]
+        # what follows the keyword is RUN for every first byte (and, where the second byte is consulted, for every second
+        # byte): an if / else-if chain, a match on the byte or on the pair give the same table  byte(s) -> new position
+        code = b[w.end():]
+
+        def advance(o):
+            if o.is_err or o.how != "value":
+                return None
+            adv = [re.fullmatch(r"self\.pos = " + p + r" \+ (\d+);?", e) for e in o.effects]
+            if len(adv) != 1 or not adv[0]:
+                raise ValueError("effects of next_stream: %r" % (o.effects,))
+            return int(adv[0].group(1))
+        one, two = {}, {}
+        for v in range(256):
+            try:
+                o = X.rsx.run(X, code, {}, lx, scopes=[b], inject={b0: v})
+                a = advance(o)
+                if a is not None:
+                    one[v] = a
+            except X.rsx.Unknown:
+                for v2 in range(256):
+                    a = advance(X.rsx.run(X, code, {}, lx, scopes=[b], inject={b0: v, b1: v2}))
+                    if a is not None:
+                        two[(v, v2)] = a
+        ((lf, after_lf),) = one.items()
+        ((cr, crlf), after_crlf), = two.items()
+        return str(lf), str(after_lf), str(cr), str(crlf), str(after_crlf)
     g.attempt([("stream_lf", "N"), ("stream_after_lf", "N"), ("stream_cr", "N"), ("stream_cr_lf", "N"), ("stream_after_crlf", "N")],
               "lexer/mod.rs:next_stream", stream_kw)
 
